@@ -2,8 +2,9 @@
 From Akita Require Import Lib.Base Lib.Fifo Lib.Port Lib.Conn C09.Model.
 Local Open Scope N_scope.
 
-(** The tick guard of the code in /repo. *)
-Definition impl_guard : guard := GuardOld.
+(** The tick guard of the code in /repo (repaired by fix commit f717b29c; the
+    scheduler's lastHandledTime / hasHandledTick are [s_handled]). *)
+Definition impl_guard : guard := GuardNew.
 
 (** A topology with scripted components, and what the real run did: the handled
     events (time, handler) in order, and every port as seen after Run returned:
